@@ -1544,6 +1544,10 @@ class Ctx:
             lines, atoms = self.args(params, args, sty)
             rt = sub.rtype(it[5], sty)
             gtxt = ""
+            if gs and gargs is None and self.selfty is not None and self.selfty[0] == "adt" and self.selfty[2] == tn \
+                    and all(g in self.generics for g, _ in gs):
+                # `Self::helper()` inside the same generic impl: the const generics are those of the enclosing impl
+                gtxt = "".join(f" ({g} := {g})" for g, _ in gs)
             if gs and gargs is not None:
                 gtxt = "".join(f" ({g} := {self.tr.const_arg(a) if not (a[0] == 'path' and a[1][0] in self.generics) else a[1][0]})" for (g, _), a in zip(gs, gargs))
             t = self.fresh()
